@@ -352,6 +352,9 @@ sexp json_write_string(sexp ctx, sexp self, const sexp obj, sexp out) {
     ch = sexp_unbox_character(sexp_string_cursor_ref(ctx, obj, i));
     if (ch < 0x7F) {
       switch (ch) {
+        case '"':
+          sexp_write_string(ctx, "\\\"", out);
+          break;
         case '\\':
           sexp_write_string(ctx, "\\\\", out);
           break;
@@ -371,7 +374,12 @@ sexp json_write_string(sexp ctx, sexp self, const sexp obj, sexp out) {
           sexp_write_string(ctx, "\\t", out);
           break;
         default:
-          sexp_write_char(ctx, ch, out);
+          if (ch < 0x20) {      /* other control characters must be escaped */
+            snprintf(cout, sizeof(cout), "\\u%04lX", ch);
+            sexp_write_string(ctx, cout, out);
+          } else {
+            sexp_write_char(ctx, ch, out);
+          }
           break;
       }
     } else if (ch <= 0xFFFF) {
